@@ -337,3 +337,19 @@ Proof.
     by (symmetry; apply Z.eqb_neq; unfold zlen; simpl length; lia).
   apply end_unknown_panics. assumption.
 Qed.
+
+(** ** End to end: the bin of a placed record is listed for every query that
+    overlaps the record's alignment. *)
+Lemma record_bin_in_query_bins_gen flags pos c sc b2 e2 :
+  spec_decode c = Some sc -> 0 <= pos ->
+  pos < spec_end flags pos sc <= 2 ^ 29 ->
+  0 <= b2 -> b2 < e2 <= 2 ^ 29 ->
+  pos < e2 -> b2 < spec_end flags pos sc ->
+  exists k l, record_bin flags pos c = Ok k /\ overlapping_bins_for b2 e2 = Ok l /\ In k l.
+Proof.
+  intros H Hp He Hb2 He2 Ho1 Ho2.
+  exists (spec_bin flags pos sc), (spec_reg2bins b2 e2).
+  split; [apply record_bin_spec; [assumption|lia]|].
+  split; [apply obf_is_spec_gen; lia|].
+  unfold spec_bin. apply bai_bin_in_bins_spec; lia.
+Qed.
